@@ -102,3 +102,194 @@ pub fn set_analysis_caps(caps: Option<crate::analysis::limits::AnalysisCaps>) {
 pub fn analysis_caps() -> Option<crate::analysis::limits::AnalysisCaps> {
     CAPS.with(Cell::get)
 }
+
+// ---------------------------------------------------------------------------------------------
+// Captured child processes (src/sys/process_common.rs): cross-thread event log, linearisation
+// lock and schedule gates. Reader threads, the wait loop and the join phase call `gate` before a
+// step and `cap_event` after it. Nothing is installed by default: every call is then a no-op.
+// ---------------------------------------------------------------------------------------------
+
+use std::sync::atomic::{AtomicBool, Ordering};
+use std::sync::{Condvar, Mutex, MutexGuard, PoisonError};
+use std::time::Duration;
+
+struct Cap {
+    recording: bool,
+    gating: bool,
+    seq: u64,
+    version: u64,
+    events: Vec<String>,
+    parked: Vec<(u64, String)>,
+    granted: Vec<u64>,
+    next_ticket: u64,
+    force_timeout: bool,
+}
+
+static CAP_ON: AtomicBool = AtomicBool::new(false);
+static CAP: Mutex<Cap> = Mutex::new(Cap {
+    recording: false,
+    gating: false,
+    seq: 0,
+    version: 0,
+    events: Vec::new(),
+    parked: Vec::new(),
+    granted: Vec::new(),
+    next_ticket: 0,
+    force_timeout: false,
+});
+static CAP_CV: Condvar = Condvar::new();
+static CAP_LIN: Mutex<()> = Mutex::new(());
+
+fn cap_lock() -> MutexGuard<'static, Cap> {
+    CAP.lock().unwrap_or_else(PoisonError::into_inner)
+}
+
+/// What a schedule controller sees: a change counter, the gates at which threads are parked
+/// and the number of events recorded so far.
+pub struct CapView {
+    pub version: u64,
+    pub parked: Vec<String>,
+    pub events: usize,
+}
+
+/// Starts a capture session. `recording`: keep events. `gating`: threads block at their gates
+/// until `gate_grant` lets them pass.
+pub fn cap_start(recording: bool, gating: bool) {
+    let mut c = cap_lock();
+    c.recording = recording;
+    c.gating = gating;
+    c.seq = 0;
+    c.events.clear();
+    c.parked.clear();
+    c.granted.clear();
+    c.force_timeout = false;
+    c.version += 1;
+    CAP_ON.store(recording || gating, Ordering::SeqCst);
+    CAP_CV.notify_all();
+}
+
+/// Opens every gate for good (threads run freely from here on); recording continues.
+pub fn cap_release() {
+    let mut c = cap_lock();
+    c.gating = false;
+    c.version += 1;
+    CAP_CV.notify_all();
+}
+
+/// Ends the session and returns the recorded events, in the order of their sequence numbers.
+pub fn cap_stop() -> Vec<String> {
+    let mut c = cap_lock();
+    c.gating = false;
+    c.recording = false;
+    c.force_timeout = false;
+    c.version += 1;
+    CAP_ON.store(false, Ordering::SeqCst);
+    CAP_CV.notify_all();
+    std::mem::take(&mut c.events)
+}
+
+/// Records one event. The sequence number is taken under the log's lock; callers that touch
+/// shared state hold `cap_lin()` across the access and this call, which makes the pair one step.
+pub fn cap_event(body: impl FnOnce() -> String) {
+    if !CAP_ON.load(Ordering::SeqCst) {
+        return;
+    }
+    let mut c = cap_lock();
+    if c.recording {
+        c.seq += 1;
+        let line = format!("{{\"seq\":{},{}}}", c.seq, body());
+        c.events.push(line);
+    }
+    c.version += 1;
+    CAP_CV.notify_all();
+}
+
+/// Linearisation lock for the lock-free accesses to the overflow flag (None when nothing is
+/// installed).
+pub fn cap_lin() -> Option<MutexGuard<'static, ()>> {
+    if !CAP_ON.load(Ordering::SeqCst) {
+        return None;
+    }
+    Some(CAP_LIN.lock().unwrap_or_else(PoisonError::into_inner))
+}
+
+/// A schedule point. With gating on, the calling thread parks here until it is granted.
+pub fn gate(point: &str) {
+    if !CAP_ON.load(Ordering::SeqCst) {
+        return;
+    }
+    let mut c = cap_lock();
+    if !c.gating {
+        return;
+    }
+    let ticket = c.next_ticket;
+    c.next_ticket += 1;
+    c.parked.push((ticket, point.to_string()));
+    c.version += 1;
+    CAP_CV.notify_all();
+    loop {
+        if let Some(i) = c.granted.iter().position(|t| *t == ticket) {
+            c.granted.swap_remove(i);
+            return;
+        }
+        if !c.gating {
+            c.parked.retain(|(t, _)| *t != ticket);
+            return;
+        }
+        c = CAP_CV.wait(c).unwrap_or_else(PoisonError::into_inner);
+    }
+}
+
+/// Lets one thread parked at `point` pass. `force_timeout` makes the wait loop's next deadline
+/// test succeed (see `cap_timeout`). Returns false if no thread is parked there.
+pub fn gate_grant(point: &str, force_timeout: bool) -> bool {
+    let mut c = cap_lock();
+    let Some(i) = c.parked.iter().position(|(_, p)| p == point) else {
+        return false;
+    };
+    let (ticket, _) = c.parked.remove(i);
+    c.granted.push(ticket);
+    c.force_timeout = force_timeout;
+    c.version += 1;
+    CAP_CV.notify_all();
+    true
+}
+
+/// Current view for the controller.
+pub fn cap_view() -> CapView {
+    let c = cap_lock();
+    CapView {
+        version: c.version,
+        parked: c.parked.iter().map(|(_, p)| p.clone()).collect(),
+        events: c.events.len(),
+    }
+}
+
+/// Blocks until something changed since `version` (an arrival at a gate, an event) or the
+/// timeout elapsed, and returns the current view.
+pub fn cap_wait_change(version: u64, timeout: Duration) -> CapView {
+    let mut c = cap_lock();
+    if c.version == version {
+        c = CAP_CV.wait_timeout(c, timeout).unwrap_or_else(PoisonError::into_inner).0;
+    }
+    CapView {
+        version: c.version,
+        parked: c.parked.iter().map(|(_, p)| p.clone()).collect(),
+        events: c.events.len(),
+    }
+}
+
+/// The deadline of the wait loop: unchanged, or zero when the schedule says "the timeout has
+/// elapsed now" (time is not something a schedule can otherwise force).
+pub fn cap_timeout(timeout: Duration) -> Duration {
+    if !CAP_ON.load(Ordering::SeqCst) {
+        return timeout;
+    }
+    let mut c = cap_lock();
+    if c.force_timeout {
+        c.force_timeout = false;
+        Duration::ZERO
+    } else {
+        timeout
+    }
+}
